@@ -32,7 +32,6 @@ type (
 		cors        *cors
 		urlDomain   string
 		recoverFunc RecoverFunc
-		matcher     Matcher
 	}
 
 	// CallFunc 指定如何调用用户给定的类型 T
